@@ -101,6 +101,13 @@ def run(ctx, rep):
         if obs["rejected_frames"]:
             fail("frame-rejected-by-reference-parser", {"count": obs["rejected_frames"]})
     rep.sample({"version": cases[0][0], "plan": cases[0][1], "state": cases[0][2]})
+    # the K3 witness of props/C01.v (C01_replies_not_correlated) on the real LAN.send: same outcomes as the session model
+    import sess
+    k3 = ([0], [], [[(0, 0, 10), (3, 0, 11)], [(6, 0, 20), (9, 0, 21)], [(6, 0, 30), (9, 0, 31)]], [(1, 1, 3), (1, 2, 3), (1, 3, 3)])
+    res = sess.compare(ctx, rep, [k3], tag="k3-witness")
+    rep.case(None, "k3-witness")
+    if res and res[0][0][2] != [[0, 10], [0, 11], [0, 20]]:
+        rep.fail("corr", "k3-witness-outcomes", {"history": "three sends, report + late reply per request"}, {"impl": res[0][0][2]})
     # correspondence of the composed client pipeline (C01_apply_*): the V2 packet the real client wrote for the control command
     # equals  v2_encode ts id (emit n (SetState (apply_ctrl d)))  of the model, for the same attributes, counter, id and timestamp
     mcases = []
